@@ -822,6 +822,18 @@ func (fs *FS) PowerLoss(t Tear) *FS {
 	return nf
 }
 
+// Crash returns the filesystem that the next process instance finds. Mode
+// "kill" is a process crash on a machine that stays up: every write made so
+// far is still in the page cache - visible to whoever opens the files next,
+// but exactly as un-synced as before, so a later PowerLoss may still drop any
+// of it. Every other mode is a power loss with that tear.
+func (fs *FS) Crash(t Tear) *FS {
+	if t.Mode == "kill" {
+		return fs.Clone()
+	}
+	return fs.PowerLoss(t)
+}
+
 // Clone returns a deep copy of the FS including volatile state (for running
 // several crash variants from the same pre-state). Open handles are not
 // carried over, so only clone a quiescent FS with no live WAL on it.
